@@ -25,8 +25,7 @@ theorem tv_tlv_ranges (t : Nat) :
     (Gen.llrp_ParamType_IsTV t = true ↔ (1 ≤ t ∧ t ≤ 127)) ∧
     (Gen.llrp_ParamType_IsTLV t = true ↔ (128 ≤ t ∧ t ≤ 2047)) := by
   unfold Gen.llrp_ParamType_IsTV Gen.llrp_ParamType_IsTLV
-  simp only [Bool.and_eq_true, decide_eq_true_eq]
-  omega
+  constructor <;> go_bool_arith
 
 /-- the encoder's TV/TLV decision (type id ≥ 128) agrees with `IsTV`/`IsTLV` for every parameter of the table -/
 theorem header_kind :
